@@ -1416,6 +1416,12 @@ class Engine:
                     return self.ev_list(exprs, s2, fr, lambda vs, s3: None)
                 self.assign(g.target, elem, s0, fr, bound, e)
                 return k(res, s0)
+            if isinstance(it, Ref) and it.kind in ("dict_items", "dict_keys", "dict_values", "dict", "list"):
+                # a comprehension over a heap dict / list that no model covers: its value is unknown (a fresh opaque value), the
+                # iterated container is left as it is; element expressions are assumed free of side effects
+                self.assumptions.add(f"comprehension at line {e.lineno} of {self.cur.key}: over a tracked container, result not modelled "
+                                     "(opaque); element expressions have no side effects")
+                return k(Opq(self.fresh(f"comp_{self.comp_ordinal(e)}", "V")), s0)
             raise Unsupported(f"comprehension over {type(it).__name__}")
         return self.ev(g.iter, st, fr, with_iter)
 
